@@ -719,8 +719,11 @@ func (e *evalCtx) call(t *ast.CallExpr) Val {
 		switch a.K {
 		case kSlice, kPtr:
 			return boolVal(sx(">=", a.Ref, refSt.wm))
-		case kIface, kMap:
+		case kMap:
 			return boolVal(sx(">=", a.S, refSt.wm))
+		case kIface:
+			// an interface value holding a pointer: the pointer is new
+			return boolVal(and(not(eq(a.S, "0")), sx(">=", sx("unbox", a.S), refSt.wm)))
 		}
 		e.fail("newobj of kind %d", a.K)
 	case "sameobj":
